@@ -788,3 +788,9 @@ Proof.
   unfold pfields_okb, pfields_ok, prb, pib, preg_ok, pimm_ok. destruct i; intros H; try exact I;
     repeat (apply andb_true_iff in H; destruct H as [H ?]); repeat split; lia.
 Qed.
+
+(* the executable field test is exactly pfields_ok *)
+Lemma pfields_okb_complete i : pfields_ok i -> pfields_okb i = true.
+Proof.
+  unfold pfields_okb, pfields_ok, prb, pib, preg_ok, pimm_ok. destruct i; intros H; try reflexivity; lia.
+Qed.
